@@ -34,8 +34,9 @@ TRUSTED = ['Coq 8.16.1 kernel (coqc; coqchk in the thorough tier)',
 ASSUMPTIONS = ['wavelength, focal length, pixel scales dyadic rationals (floats represent them exactly); alpha = p/q with '
                'lcm of denominators <= 64 (quick) / 160 (thorough); float alpha within 1 ulp of p/q',
                'Gaussian-integer pupil data, no OPD, no tilt; comparison tolerance 1e-9*(1+max|expected|)',
-               'the input fields of the model are the fields the implementation\'s wavefront holds after Wavefront * Plane '
-               '(public attributes data/offset); the oracle takes the input plane from Wavefront.field of that wavefront']
+               'the input fields of the model are the fields the implementation\'s wavefront holds after the FIRST Wavefront * Plane '
+               '(public attributes data/offset); every further plane is multiplied inside the model (Field.__mul__ of Model/Field.v on the '
+               'plane\'s phasors); the oracle builds the input plane from the arrays of all planes']
 RULE = ('corpus, then random cases over {pupil->image, image->pupil, pupil->image->pupil, none-type, histories}: pupil arrays 1..8 per '
         'axis (odd/even/non-square), off-centre supports incl. single off-centre pixels and one-pixel segments, monolithic and '
         'segmented (3-d mask) planes, amplitude dtypes complex/int/float32/uint8/bool, scalar or per-axis dx and du (tuple, list, '
@@ -43,7 +44,10 @@ RULE = ('corpus, then random cases over {pupil->image, image->pupil, pupil->imag
         'support and dtype (full, single pixel, box, random, all-zero, wrong shape). A history propagates ONE wavefront object 2-4 '
         'times with one argument varied at a time (or repeated), or a pupil->image->pupil chain whose intermediate wavefront is '
         're-used; every call is compared with the model and the oracle on the input plane as it was before any call, and every '
-        'wavefront the caller holds must be unchanged after each call. lentil is imported afresh for every case, so each replay is '
+        'wavefront the caller holds must be unchanged after each call. Trains: the wavefront passes 2-3 array-valued planes before it is '
+        'propagated (Pupil x Pupil stop, Plane x Pupil, pupil -> image -> Image-plane pinhole / slit / field stop -> pupil; stops with '
+        'single-sample, single-row/column and box supports, also on a different grid); the oracle builds the input plane from the '
+        'ARRAYS of the planes (product of the transmissions on a canvas), never from the wavefront. lentil is imported afresh for every case, so each replay is '
         'self-contained. non-trivial = history, or non-square or prop_shape < shape or mask or per-axis scales')
 
 TOL = 1e-9
@@ -90,12 +94,13 @@ def alphas(dx, du, wl, z, os):
 
 
 def steps_of(c):
-    """uniform view of a case: [(src, call)], src = 0 the initial wavefront, src = j > 0 the result of step j"""
+    """uniform view of a case: [(src, call, mul)], src = 0 the initial wavefront, src = j > 0 the result of step j;
+    a step is a propagation (call) or the multiplication by one more array-valued plane (mul)"""
     if c['dir'] == 'history':
-        return [(int(s['src']), s['call']) for s in c['steps']]
+        return [(int(s['src']), s.get('call'), s.get('mul')) for s in c['steps']]
     if c['dir'] == 'roundtrip':
-        return [(0, c['call']), (1, c['call2'])]
-    return [(0, c['call'])]
+        return [(0, c['call'], None), (1, c['call2'], None)]
+    return [(0, c['call'], None)]
 
 
 def step_info(c):
@@ -103,7 +108,11 @@ def step_info(c):
     px = {0: pair(c['dx'], Fraction)}
     cum = {0: 1.0}
     out = []
-    for k, (src, call) in enumerate(steps_of(c), start=1):
+    for k, (src, call, mul) in enumerate(steps_of(c), start=1):
+        if mul is not None:
+            px[k], cum[k] = px[src], cum[src]
+            out.append({'mul': True, 'ok': True, 'scale': cum[k]})
+            continue
         ar, ac, ok = alphas(list(px[src]), call['du'], c['wl'], c['z'], call['os'])
         du = pair(call['du'], Fraction)
         px[k] = (du[0] / call['os'], du[1] / call['os'])
@@ -112,10 +121,55 @@ def step_info(c):
     return out
 
 
+# ---- planes, from their ARRAYS (no lentil): transmission on the plane's own grid, and the phasors Plane.multiply forms
+def plane_masks(spec):
+    A = to_np(spec['A'])
+    m = spec.get('mask')
+    if m is None:
+        return [(A != 0).astype(int)]
+    m = np.array(m)
+    if m.ndim == 2:
+        return [(m != 0).astype(int)]
+    return [(x != 0).astype(int) for x in m]
+
+
+def transmission(spec):
+    """complex transmission of the plane at every sample: amplitude inside the mask(s), 0 outside"""
+    A = to_np(spec['A'])
+    return A * sum(plane_masks(spec))
+
+
+def plane_phasors(spec):
+    """[(data, (offr, offc))]: amplitude*mask on the bounding slice of each mask, offset of the slice centre"""
+    A = to_np(spec['A'])
+    n, m = A.shape
+    out = []
+    for mk in plane_masks(spec):
+        bb = bbox(mk.tolist())
+        r0, r1, c0, c1 = bb
+        data = (A * mk)[r0:r1 + 1, c0:c1 + 1]
+        out.append((data, (r0 + (r1 - r0 + 1) // 2 - n // 2, c0 + (c1 - c0 + 1) // 2 - m // 2)))
+    return out
+
+
+def times_canvas(src_plane, T):
+    """product on the new plane's grid of a field given on its own grid (both centred at index floor(n/2))"""
+    src_plane = np.asarray(src_plane, dtype=complex)
+    n, m = T.shape
+    sn, sm = src_plane.shape
+    out = np.zeros((n, m), dtype=complex)
+    for r in range(n):
+        for cc in range(m):
+            i, j = r - n // 2 + sn // 2, cc - m // 2 + sm // 2
+            if 0 <= i < sn and 0 <= j < sm:
+                out[r, cc] = T[r, cc] * src_plane[i, j]
+    return out
+
+
 def case_alphas(c):
     """[(ar, ac)] for the propagations of the case, and whether all float alphas are within 1 ulp"""
     info = step_info(c)
-    return [(i['ar'], i['ac']) for i in info], all(i['ok'] for i in info)
+    return [(i['ar'], i['ac']) for i in info if 'ar' in i], all(i['ok'] for i in info)
 
 
 def case_L(c):
@@ -153,11 +207,26 @@ def wf_summary(w):
 NPDT = {'int': np.int64, 'float32': np.float32, 'uint8': np.uint8, 'bool': bool, 'float': float}
 
 
+def plane_arrays(spec):
+    A = to_np(spec['A'])
+    if spec.get('adtype'):                    # real-valued amplitude of another dtype (entries are exact in it)
+        A = A.real.astype(NPDT[spec['adtype']])
+    mask = None if spec.get('mask') is None else np.array(spec['mask'], dtype=NPDT.get(spec.get('mdtype'), int))
+    return A, mask
+
+
+def mk_plane(lentil, c, spec):
+    """one more plane of the optical train: a Pupil on the pupil grid, or an Image plane (pixelscale left undefined)"""
+    A, mask = plane_arrays(spec)
+    if spec['kind'] == 'pupil':
+        return lentil.Pupil(amplitude=A, mask=mask, pixelscale=fl_arg(c['dx']), focal_length=fl(c['z']))
+    if spec['kind'] == 'image':
+        return lentil.Image(amplitude=A, mask=mask)
+    raise ValueError(spec['kind'])
+
+
 def build_wavefront(lentil, c):
-    A = to_np(c['A'])
-    if c.get('adtype'):                       # real-valued amplitude of another dtype (entries are exact in it)
-        A = A.real.astype(NPDT[c['adtype']])
-    mask = None if c.get('mask') is None else np.array(c['mask'], dtype=NPDT.get(c.get('mdtype'), int))
+    A, mask = plane_arrays(c)
     wl, z, dx = fl(c['wl']), fl(c['z']), fl_arg(c['dx'])
     start = c.get('start', c['dir'])
     if start in ('pupil', 'roundtrip'):
@@ -242,7 +311,7 @@ def _run(c):
         live = [w]
         steps = []
         muts = []
-        for k, (src, call) in enumerate(steps_of(c), start=1):
+        for k, (src, call, mul) in enumerate(steps_of(c), start=1):
             srcw = live[src]
             if srcw is None:
                 live.append(None)
@@ -250,7 +319,7 @@ def _run(c):
                 continue
             snaps = [None if x is None else snapshot(x) for x in live]
             try:
-                w2 = do_call(lentil, srcw, call)
+                w2 = do_call(lentil, srcw, call) if mul is None else srcw * mk_plane(lentil, c, mul)
                 steps.append(result_of(w2))
             except Exception as e:
                 w2 = None
@@ -335,8 +404,21 @@ def encode(c):
     if c['dir'] == 'history':
         st = steps_of(c)
         out += [len(st)]
-        for src, call in st:
-            out += [src] + enc_call(call)
+        ptype = {0: w['ptype']}
+        for k, (src, call, mul) in enumerate(st, start=1):
+            if mul is None:
+                out += [0, src] + enc_call(call)
+                ptype[k] = SWAP.get(ptype[src], 'none')
+                continue
+            # the plane as Plane.multiply sees it: its phasors; result type from the multiplication table
+            ptype[k] = mul['kind'] if ptype[src] in ('none', mul['kind']) else 'none'
+            ph = plane_phasors(mul)
+            out += [1, src, len(mul['A']), len(mul['A'][0]), PT[ptype[k]], len(ph)]
+            for data, off in ph:
+                out += [2, data.shape[0], data.shape[1]]
+                for v in data.ravel():
+                    out += C.enc_c((C.frac(float(v.real)), C.frac(float(v.imag))))
+                out += [int(off[0]), int(off[1]), 0]
         return out
     out += enc_call(c['call'])
     if c['dir'] == 'roundtrip':
@@ -425,8 +507,18 @@ def compare(c, impl, model):
     if c['dir'] == 'history':
         if 'steps' not in impl:
             return f'implementation {impl.get("err")} while building the wavefront'
+        st = steps_of(c)
         for k, (a, b) in enumerate(zip(impl['steps'], model['steps']), start=1):
-            msg = compare_one(a, b)
+            if st[k - 1][2] is not None:
+                # behind one more plane: only the embedding (Wavefront.field) is pinned, not the grouping into Fields
+                msg = None
+                if ('err' in a) != ('err' in b):
+                    msg = f'implementation {a.get("err", "returned a value")}, model {b.get("err", "returned a value")}'
+                elif 'err' not in a:
+                    msg = arr_close(cx(a['field']), b['field'])
+                    msg = msg and 'Wavefront.field behind the plane: ' + msg
+            else:
+                msg = compare_one(a, b)
             if msg:
                 return f'call {k} of the history: {msg}'
         return None
@@ -564,7 +656,7 @@ def oracle(c, impl):
     if 'err' in impl:
         return f'propagate_dft raised {impl["err"]}'
     (al, _) = case_alphas(c)
-    plane = cx(impl['in_plane'])
+    plane = transmission(c)        # the input plane from the ARRAYS of the plane, not from the wavefront's own view of it
     exp, win = fraunhofer(plane, al[0][0], al[0][1], S1, P1, c['call']['os'], c['call'].get('omask'))
     os_, S_, du_ = c['call']['os'], S1, c['call']['du']
     if c['dir'] == 'roundtrip':
@@ -616,17 +708,25 @@ def oracle_history(c, impl):
     give on a fresh copy of its input (the Fraunhofer sum of the input plane as it was BEFORE any call)"""
     info = step_info(c)
     inp = impl['input']
-    plane = {0: cx(impl['in_plane'])}
+    plane = {0: transmission(c)}      # from the arrays of the plane(s); every further plane multiplies on a canvas
     shape = {0: tuple(inp['shape'])}
     ptype = {0: inp['ptype']}
     muts = {}
     for m in impl.get('mutations', []):
         muts.setdefault(m['step'], m)
     note = ''
-    for k, (src, call) in enumerate(steps_of(c), start=1):
+    for k, (src, call, mul) in enumerate(steps_of(c), start=1):
         got = impl['steps'][k - 1]
         plane[k] = None
         if plane[src] is None:
+            continue
+        if mul is not None:
+            if 'err' in got:
+                return f'step {k}: multiplying by a {mul["kind"]} plane raised {got["err"]}'
+            T = transmission(mul)
+            plane[k] = times_canvas(plane[src], T)       # product of the transmissions, sample by sample
+            shape[k] = T.shape
+            ptype[k] = mul['kind'] if ptype[src] in ('none', mul['kind']) else 'none'
             continue
         S, P = call_shapes(call, shape[src])
         bad = mask_ok(call, S)
@@ -856,6 +956,89 @@ def usable(call, wshape):
     return mask_ok(call, S) is None
 
 
+def rnd_stop(rng, n, m, kind):
+    """one more array-valued plane on an n x m grid whose support is a single sample, a single row or column (slit),
+    or a small box (field stop / sub-aperture), anywhere on the grid"""
+    t = rng.random()
+    r0, c0 = rng.randint(0, n - 1), rng.randint(0, m - 1)
+    if t < 0.45:
+        r1, c1 = r0, c0
+    elif t < 0.6:
+        r1, c0, c1 = r0, 0, m - 1
+        c0 = rng.randint(0, m - 1)
+        c1 = rng.randint(c0, m - 1)
+    elif t < 0.75:
+        c1 = c0
+        r0 = rng.randint(0, n - 1)
+        r1 = rng.randint(r0, n - 1)
+    else:
+        r1, c1 = rng.randint(r0, n - 1), rng.randint(c0, m - 1)
+    nz = lambda: rng.choice([-3, -2, -1, 1, 2, 3])
+    A = [[[0, 0] for _ in range(m)] for _ in range(n)]
+    for r in range(r0, r1 + 1):
+        for cc in range(c0, c1 + 1):
+            A[r][cc] = [nz(), rng.randint(-2, 2) if rng.random() < 0.5 else 0]
+    spec = {'kind': kind, 'A': A, 'mask': None}
+    if rng.random() < 0.25:
+        # the support given by an explicit mask over a fully populated amplitude
+        spec['mask'] = [[1 if (r0 <= r <= r1 and c0 <= cc <= c1) else 0 for cc in range(m)] for r in range(n)]
+        spec['A'] = [[[nz(), rng.randint(-1, 1)] for _ in range(m)] for _ in range(n)]
+        if rng.random() < 0.4:
+            spec['mdtype'] = rng.choice(['bool', 'float'])
+    elif rng.random() < 0.25:
+        for row in spec['A']:
+            for v in row:
+                v[0], v[1] = abs(v[0]), 0
+        spec['adtype'] = rng.choice(['int', 'float32', 'uint8'])
+    return spec
+
+
+def rnd_train(rng, c, wshape, maxs):
+    """a wavefront that passes 2-3 array-valued planes before it is propagated: aperture x stop(s) in the pupil
+    (Pupil x Pupil, Plane x Pupil), or pupil -> image -> Image-plane pinhole / slit / field stop -> pupil"""
+    n, m = wshape
+    steps = []
+    if rng.random() < 0.55:
+        c['start'] = 'pupil' if rng.random() < 0.7 else 'plane'
+        last = 0
+        for _ in range(1 if rng.random() < 0.7 else 2):
+            sn, sm = (n, m) if rng.random() < 0.85 else (rng.randint(1, n + 1), rng.randint(1, m + 1))
+            steps.append({'src': last, 'mul': rnd_stop(rng, sn, sm, 'pupil')})
+            last = len(steps)
+            wshape = (sn, sm)
+        for _ in range(50):
+            c1, so = rnd_call(rng, wshape, maxs, 3)
+            if usable(c1, wshape):
+                break
+        else:
+            return None
+        steps.append({'src': last, 'call': c1})
+        if rng.random() < 0.4:
+            c2, _what = vary(rng, c1, wshape, maxs)
+            steps.append({'src': last, 'call': c2})
+        return steps, 'stop'
+    c['start'] = 'pupil'
+    for _ in range(50):
+        c1, so = rnd_call(rng, wshape, maxs, 2)
+        if usable(c1, wshape):
+            break
+    else:
+        return None
+    steps.append({'src': 0, 'call': c1})
+    steps.append({'src': 1, 'mul': rnd_stop(rng, so[0], so[1], 'image')})
+    for _ in range(50):
+        c2, _so2 = rnd_call(rng, so, min(maxs, 5), 2)
+        if usable(c2, so):
+            break
+    else:
+        return None
+    steps.append({'src': 2, 'call': c2})
+    if rng.random() < 0.4:
+        c3, _what = vary(rng, c2, so, min(maxs, 5))
+        steps.append({'src': rng.choice([2, 2, 1]), 'call': c3})
+    return steps, 'pinhole'
+
+
 def rnd_history(rng, wshape, maxs):
     """2-4 propagations that re-use wavefront objects: the same wavefront with one argument varied at a time, or a
     pupil -> image -> pupil chain whose intermediate wavefront is propagated more than once"""
@@ -908,7 +1091,7 @@ def generate(rng, tier):
     while out < n_cases and tries < 200000:
         tries += 1
         t = rng.random()
-        d = 'pupil' if t < 0.42 else 'image' if t < 0.57 else 'roundtrip' if t < 0.69 else 'history' if t < 0.97 else 'none'
+        d = 'pupil' if t < 0.36 else 'image' if t < 0.49 else 'roundtrip' if t < 0.59 else 'history' if t < 0.97 else 'none'
         small = d in ('roundtrip', 'history')
         A, mask = rnd_pupil(rng, maxn if not small else min(maxn, 5))
         wshape = (len(A), len(A[0]))
@@ -929,8 +1112,11 @@ def generate(rng, tier):
             if mask is not None and rng.random() < 0.5:
                 c['mdtype'] = rng.choice(['bool', 'float'])
         if d == 'history':
-            c['start'] = 'pupil' if rng.random() < 0.75 else 'image'
-            h = rnd_history(rng, wshape, min(maxs, 4))
+            if rng.random() < 0.45:
+                h = rnd_train(rng, c, wshape, min(maxs, 4))
+            else:
+                c['start'] = 'pupil' if rng.random() < 0.75 else 'image'
+                h = rnd_history(rng, wshape, min(maxs, 4))
             if h is None:
                 continue
             c['steps'], c['pattern'] = h
@@ -956,7 +1142,7 @@ def classify(c):
         k += '/' + c.get('pattern', '?') + '/' + c.get('start', 'pupil')
     if isinstance(c.get('mask'), list) and c['mask'] and isinstance(c['mask'][0][0], list):
         k += '/segmented'
-    if any(call.get('omask') is not None for _, call in steps_of(c)):
+    if any(call is not None and call.get('omask') is not None for _, call, _m in steps_of(c)):
         k += '/mask'
     if c.get('adtype'):
         k += '/' + c['adtype']
